@@ -614,14 +614,28 @@ impl FormatSpec {
     {
         self.validate_format(FormatType::String)?;
         match self.format_type {
-            Some(FormatType::String) | None => self
-                .format_sign_and_align(s, "", FormatAlign::Left)
-                .map(|mut value| {
-                    if let Some(precision) = self.precision {
-                        value.truncate(precision);
-                    }
-                    value
-                }),
+            Some(FormatType::String) | None => {
+                if self.sign.is_some() {
+                    return Err(FormatSpecError::NotAllowed("Sign"));
+                }
+                if self.alternate_form {
+                    return Err(FormatSpecError::NotAllowed("Alternate form (#)"));
+                }
+                // precision counts characters and applies before padding
+                let truncated: String = match self.precision {
+                    Some(precision) => s.deref().chars().take(precision).collect(),
+                    None => s.deref().to_owned(),
+                };
+                let num_chars = truncated.chars().count();
+                self.format_sign_and_align(
+                    &CharCountStr {
+                        inner: &truncated,
+                        num_chars,
+                    },
+                    "",
+                    FormatAlign::Left,
+                )
+            }
             _ => {
                 let ch = char::from(self.format_type.as_ref().unwrap());
                 Err(FormatSpecError::UnknownFormatCode(ch, "str"))
@@ -686,6 +700,24 @@ pub trait CharLen {
 
 struct AsciiStr<'a> {
     inner: &'a str,
+}
+
+struct CharCountStr<'a> {
+    inner: &'a str,
+    num_chars: usize,
+}
+
+impl CharLen for CharCountStr<'_> {
+    fn char_len(&self) -> usize {
+        self.num_chars
+    }
+}
+
+impl Deref for CharCountStr<'_> {
+    type Target = str;
+    fn deref(&self) -> &Self::Target {
+        self.inner
+    }
 }
 
 impl<'a> AsciiStr<'a> {
